@@ -31,13 +31,20 @@ type State struct {
 	Neg     map[int32]int64
 	Custom  []float64 // non-nil => custom buckets (schema -53)
 	started bool
+
+	// PreferCustom (set before the first Next) makes custom buckets the likely layout of this series.
+	PreferCustom bool
 }
 
 func (s *State) init(r *prng.R) {
 	s.started = true
 	s.Pos = map[int32]int64{}
 	s.Neg = map[int32]int64{}
-	if r.Chance(0.25) {
+	pc := 0.25
+	if s.PreferCustom {
+		pc = 0.7
+	}
+	if r.Chance(pc) {
 		s.Schema = histogram.CustomBucketsSchema
 		s.Custom = []float64{0.5, 1, 2.5, 5, 10}
 		s.ZeroTh, s.Zero = 0, 0
